@@ -355,7 +355,7 @@ SCOPES = {
     "C13": FRONT + ("ast_builder", "ast_node"),
     "C14": FRONT + ("ast_builder", "ast_node", "gherkin_events"),
     "C16": FRONT + ("ast_builder", "ast_node", "source_events", "compiler"),
-    "C17": ("gherkin_events", "source_events", "id_generator", "compiler", "parser", "errors", "ast_builder", "ast_node"),
+    "C17": ALL,
     "C18": ("token_scanner", "gherkin_line", "token", "parser", "errors", "token_formatter_builder", "token_matcher", "dialect"),
     "C19": ("token_matcher_markdown", "token_matcher", "dialect", "gherkin_line", "token", "token_scanner"),
 }
